@@ -47,7 +47,7 @@ var (
 	dataAttribute             = regexp.MustCompile("^data-.+")
 	dataAttributeXMLPrefix    = regexp.MustCompile("^xml")
 	dataAttributeInvalidChars = regexp.MustCompile("[A-Z;]+")
-	cssUnicodeChar            = regexp.MustCompile(`\\[0-9a-f]{1,6} ?`)
+	cssUnicodeChar            = regexp.MustCompile(`\\[0-9a-f]{1,6}(?:\r\n|[ \t\n\f\r])?`)
 	dataURIbase64Prefix       = regexp.MustCompile(`^data:[^,]*;base64,`)
 )
 
